@@ -61,6 +61,8 @@ pub struct StateRes {
     pub snap_after_iters: Option<Snap>,
     pub clone: Option<CloneRes>,
     pub exec: ExecReport,
+    /// findings produced by a wrapping driver (lock-step legs of C17)
+    pub extra: Vec<crate::oracle::Finding>,
 }
 
 #[derive(Clone, Debug, Default)]
@@ -78,6 +80,7 @@ pub struct TransRes {
     pub cb_log: Vec<Ent>,
     pub out_serials: Vec<u32>,
     pub exec: ExecReport,
+    pub extra: Vec<crate::oracle::Finding>,
 }
 
 pub trait Driver: Sync + Send {
@@ -389,3 +392,92 @@ pub fn make_driver(cfg: &Cfg) -> Box<dyn Driver> {
 
 #[allow(dead_code)]
 fn _assert_bounds<K: KeyT, V: ValT>() {}
+
+/// C17: the same history under several BuildHashers in lock-step. The first driver defines the
+/// state space; every other leg must return the same values and reach the same abstract state
+/// on every transition and every observer call.
+pub struct MultiDriver {
+    pub base: Box<dyn Driver>,
+    pub legs: Vec<(String, Box<dyn Driver>)>,
+}
+
+impl MultiDriver {
+    pub fn new(cfg: &Cfg, hashers: &[crate::hashers::HKind]) -> MultiDriver {
+        let base = make_driver(cfg);
+        let legs = hashers
+            .iter()
+            .map(|h| {
+                let mut c = cfg.clone();
+                c.hasher = *h;
+                c.mixed_hashers = false;
+                (format!("{:?}", h), make_driver(&c))
+            })
+            .collect();
+        MultiDriver { base, legs }
+    }
+}
+
+impl Driver for MultiDriver {
+    fn cfg(&self) -> &Cfg {
+        self.base.cfg()
+    }
+    fn state(&self, hist: &[Op], want: &Wants) -> StateRes {
+        let mut r = self.base.state(hist, want);
+        let cfg = self.base.cfg();
+        for (name, leg) in &self.legs {
+            let o = leg.state(hist, want);
+            let (a, b) = (r.snap.as_ref().map(|s| s.canon()), o.snap.as_ref().map(|s| s.canon()));
+            if a != b {
+                r.extra.push(crate::oracle::Finding::new(
+                    "C17",
+                    "same_state_under_every_hasher",
+                    format!("{:?}", cfg.kind),
+                    format!(
+                        "after the same history the cache is {} under {:?}{} but {} under {}",
+                        r.snap.as_ref().map(|s| crate::oracle::show(cfg, s)).unwrap_or_default(),
+                        cfg.hasher,
+                        if cfg.mixed_hashers { "(mixed per list)" } else { "" },
+                        o.snap.as_ref().map(|s| crate::oracle::show(cfg, s)).unwrap_or_default(),
+                        name
+                    ),
+                ));
+            } else if r.obs != o.obs {
+                let d = r.obs.iter().zip(o.obs.iter()).find(|(x, y)| x != y);
+                r.extra.push(crate::oracle::Finding::new(
+                    "C17",
+                    "same_observations_under_every_hasher",
+                    format!("{:?}", cfg.kind),
+                    format!("read-only call differs between {:?} and {}: {:?}", cfg.hasher, name, d),
+                ));
+            }
+        }
+        r
+    }
+    fn trans(&self, hist: &[Op], op: Op, want: &Wants) -> TransRes {
+        let mut r = self.base.trans(hist, op, want);
+        let cfg = self.base.cfg();
+        for (name, leg) in &self.legs {
+            let o = leg.trans(hist, op, want);
+            let (a, b) = (r.post.as_ref().map(|s| s.canon()), o.post.as_ref().map(|s| s.canon()));
+            if r.ret != o.ret || a != b || r.cb_log != o.cb_log {
+                r.extra.push(crate::oracle::Finding::new(
+                    "C17",
+                    "same_transition_under_every_hasher",
+                    format!("{:?}/{}", cfg.kind, crate::oracle::op_name(&op)),
+                    format!(
+                        "{:?} returns {:?} and leaves {} under {:?}{}, but returns {:?} and leaves {} under {}",
+                        op,
+                        r.ret,
+                        r.post.as_ref().map(|s| crate::oracle::show(cfg, s)).unwrap_or_default(),
+                        cfg.hasher,
+                        if cfg.mixed_hashers { "(mixed per list)" } else { "" },
+                        o.ret,
+                        o.post.as_ref().map(|s| crate::oracle::show(cfg, s)).unwrap_or_default(),
+                        name
+                    ),
+                ));
+            }
+        }
+        r
+    }
+}
